@@ -500,17 +500,34 @@ impl<I: Ip> PeerMap<I> {
                     Self::Large(peer_map) => peer_map.insert(peer_map_key, peer),
                 }
 
-                if config.statistics.peer_clients && opt_removed_peer.is_none() {
-                    statistics_sender
-                        .try_send(StatisticsMessage::PeerAdded(request.peer_id))
-                        .expect("statistics channel should be unbounded");
+                if config.statistics.peer_clients {
+                    // If the stored peer used another peer id, count it as
+                    // removed so that per-client statistics follow the ids
+                    // actually stored
+                    let opt_previous_peer_id = opt_removed_peer.map(|peer| peer.peer_id);
+
+                    if opt_previous_peer_id != Some(request.peer_id) {
+                        if let Some(previous_peer_id) = opt_previous_peer_id {
+                            statistics_sender
+                                .try_send(StatisticsMessage::PeerRemoved(previous_peer_id))
+                                .expect("statistics channel should be unbounded");
+                        }
+
+                        statistics_sender
+                            .try_send(StatisticsMessage::PeerAdded(request.peer_id))
+                            .expect("statistics channel should be unbounded");
+                    }
                 }
             }
             PeerStatus::Stopped => {
-                if config.statistics.peer_clients && opt_removed_peer.is_some() {
-                    statistics_sender
-                        .try_send(StatisticsMessage::PeerRemoved(request.peer_id))
-                        .expect("statistics channel should be unbounded");
+                if config.statistics.peer_clients {
+                    // Report the peer id that was stored, which is not
+                    // necessarily the one in the request
+                    if let Some(removed_peer) = opt_removed_peer {
+                        statistics_sender
+                            .try_send(StatisticsMessage::PeerRemoved(removed_peer.peer_id))
+                            .expect("statistics channel should be unbounded");
+                    }
                 }
             }
         };
